@@ -212,6 +212,27 @@ def run(ctx):
         okc = c1[0] < 0.5 * w - 1e-3
         if np.abs(c1[0][okc] - c2[0][okc]).max(initial=0) > tol:
             viol("lattice|contacts", "compute_contacts(periodic=True) changes by %.3g under a %s" % (np.abs(c1[0][okc] - c2[0][okc]).max(), rp["transform"]), rp)
+    # ---- a solute in the middle of a rectangular box, the solvent stored in other periodic images after the shift (unwrapped trajectory):
+    # compute_neighbors around the solute must not change
+    from props.c10 import _brute
+    for k in range(ctx.n(8, 60)):
+        L = np.array([rng.uniform(3.0, 5.0) for _ in range(3)])
+        n = 150
+        X = np.array([[rng.random() * L[a] for a in range(3)] for _ in range(n)])
+        q = np.argsort(np.linalg.norm(X - L / 2, axis=1))[:3]
+        reach = float(np.min(np.minimum(X[q].min(0), L - X[q].max(0))))
+        cut = min(0.9 * reach, 0.45 * float(L.min())) * rng.uniform(0.5, 1.0)
+        S = np.array([[rng.randrange(-2, 3) for _ in range(3)] for _ in range(n)], dtype=np.float64) * L
+        S[q] = 0.0
+        mk = lambda Y: md.Trajectory(Y[None].astype(np.float32), None, unitcell_lengths=[L], unitcell_angles=[[90.0, 90.0, 90.0]])
+        t1, t2 = mk(X), mk(X + S)
+        best = _brute(t1.xyz[0].astype(np.float64), t1.unitcell_vectors[0].astype(np.float64))
+        open_ = {j for j in range(n) if any(abs(best[i, j] - cut) <= 2e-5 for i in q if i != j)}
+        g1 = set(int(j) for j in md.compute_neighbors(t1, cut, q)[0]); g2 = set(int(j) for j in md.compute_neighbors(t2, cut, q)[0])
+        ctx.case(None, ("central-solute", k)); ctx.count("central-solute systems")
+        if (g1 ^ g2) - open_:
+            viol("lattice|neighbors|central-solute", "compute_neighbors around 3 atoms in the middle of a rectangular cell changes when the other atoms are moved by lattice vectors: %s appear or disappear" % sorted((g1 ^ g2) - open_)[:6],
+                 dict(transform="per-atom lattice shift of the haystack atoms, rectangular cell", lengths=L.tolist(), cutoff=cut, query=q.tolist(), seed=ctx.seed, case=k))
     for key, (what, rp) in seen.items():
         ctx.violation(key, what, rp)
 
